@@ -2170,10 +2170,14 @@ impl VirtualFileSystem for Memfs {
     fn set_cwd<T: AsRef<Path>>(&self, path: T) -> RvResult<PathBuf> {
         let mut guard = self.write_guard();
         let path = self._abs(&guard, path)?;
-        if !guard.contains_entry(&path) {
-            return Err(PathError::does_not_exist(&path).into());
-        }
-        guard.set_cwd(path.clone());
+        let cwd = match guard.get_entry(&path) {
+            // Changing into a link to a directory lands in the directory it points to
+            Some(entry) if entry.is_dir() && entry.is_symlink() => entry.alt_buf(),
+            Some(entry) if entry.is_dir() => path.clone(),
+            Some(_) => return Err(PathError::is_not_dir(&path).into()),
+            None => return Err(PathError::does_not_exist(&path).into()),
+        };
+        guard.set_cwd(cwd);
         Ok(path)
     }
 
